@@ -17,7 +17,7 @@ Theorem C18_run_never_out_of_fuel : forall fmt1 parts join v c target tmp fs sch
 Proof. exact run_no_fuel. Qed.
 Print Assumptions C18_run_never_out_of_fuel.
 
-(* fmt -w, both protocols: in every reachable final state the target holds what it
+(* fmt -w (protocol in force and the one before the fix alike): in every reachable final state the target holds what it
    held before (bytes AND mode) or the complete formatted text; and exit status 0
    implies the latter *)
 Theorem C18_fmt_w_atomic : forall fmt1 parts join v target tmp fs sched kill,
@@ -43,11 +43,30 @@ Theorem C18_fmt_w_leftover_only_temp : forall fmt1 parts join v target tmp fs sc
 Proof. exact fmt_w_leftover. Qed.
 Print Assumptions C18_fmt_w_leftover_only_temp.
 
-(* permission bits: FALSE for writeAtomically as it is in the tree ... *)
-Theorem C18_fmt_w_mode_preserved_refuted :
+(* permission bits are preserved — unguarded, for the protocol in force (main.go since
+   commit c62275b: stat; fchmod the temp file to the target's bits before the rename) *)
+Theorem C18_fmt_w_mode_preserved : forall fmt1 parts join target tmp fs sched kill f,
+  files (r_fs (run fmt1 parts join Current CmdWrite target tmp fs sched kill)) target = Some f ->
+  exists f0, files fs target = Some f0 /\ f_mode f = f_mode f0.
+Proof. exact fmt_w_mode_preserved. Qed.
+Print Assumptions C18_fmt_w_mode_preserved.
+
+(* the protocol in force cleans up: when the process has exited (was not killed), the temp path
+   holds what it held before (nothing, if the temp file had been created), unless the clean-up
+   unlink itself failed *)
+Theorem C18_fmt_w_no_temp_left : forall fmt1 parts join target tmp fs sched kill n,
+  let r := run fmt1 parts join Current CmdWrite target tmp fs sched kill in
+  r_status r = Exit n ->
+  files (r_fs r) tmp = files fs tmp \/ exists e, In (CUnlink tmp, RErr e) (r_trace r).
+Proof. exact fmt_w_no_temp_left. Qed.
+Print Assumptions C18_fmt_w_no_temp_left.
+
+(* ---- regression lemmas about the protocol before the fix (write_atomically_before_fix) ---- *)
+(* it did NOT preserve the mode: a 0644 file ends with 0600 ... *)
+Theorem C18_fmt_w_mode_preserved_before_fix_refuted :
   exists fs target tmp sched kill f0 f,
     files fs target = Some f0 /\
-    files (r_fs (run (fun b => Some b) evy_parts evy_join AsIs CmdWrite target tmp fs sched kill)) target = Some f /\
+    files (r_fs (run (fun b => Some b) evy_parts evy_join BeforeFix CmdWrite target tmp fs sched kill)) target = Some f /\
     f_mode f <> f_mode f0.
 Proof.
   exists {| files := fun q => if str_eqb q [97; 46; 101; 118; 121]%N
@@ -57,29 +76,22 @@ Proof.
   exists {| f_data := [120; 10]%N; f_mode := 420 |}, {| f_data := [120; 10]%N; f_mode := 384 |}.
   vm_compute. repeat split; try reflexivity. discriminate.
 Qed.
-Print Assumptions C18_fmt_w_mode_preserved_refuted.
+Print Assumptions C18_fmt_w_mode_preserved_before_fix_refuted.
 
-(* ... in fact every successful run of it leaves mode 0600 ... *)
-Theorem C18_fmt_w_asis_success_sets_0600 : forall fmt1 parts join target tmp fs sched kill,
-  let r := run fmt1 parts join AsIs CmdWrite target tmp fs sched kill in
+(* ... in fact every successful run of it left mode 0600 ... *)
+Theorem C18_fmt_w_before_fix_success_sets_0600 : forall fmt1 parts join target tmp fs sched kill,
+  let r := run fmt1 parts join BeforeFix CmdWrite target tmp fs sched kill in
   r_status r = Exit 0 -> exists f, files (r_fs r) target = Some f /\ f_mode f = mode0600.
-Proof. exact fmt_w_asis_success_mode. Qed.
-Print Assumptions C18_fmt_w_asis_success_sets_0600.
+Proof. exact fmt_w_before_fix_success_mode. Qed.
+Print Assumptions C18_fmt_w_before_fix_success_sets_0600.
 
-(* ... so for the tree's protocol the mode is preserved exactly under the guard "it was 0600 already" ... *)
-Theorem C18_fmt_w_mode_preserved_asis_partial : forall fmt1 parts join target tmp fs sched kill f f0,
+(* ... and preserved it only under the guard "it was 0600 already" *)
+Theorem C18_fmt_w_mode_preserved_before_fix_partial : forall fmt1 parts join target tmp fs sched kill f f0,
   files fs target = Some f0 -> f_mode f0 = mode0600 ->
-  files (r_fs (run fmt1 parts join AsIs CmdWrite target tmp fs sched kill)) target = Some f ->
+  files (r_fs (run fmt1 parts join BeforeFix CmdWrite target tmp fs sched kill)) target = Some f ->
   f_mode f = f_mode f0.
-Proof. exact fmt_w_mode_preserved_asis_guarded. Qed.
-Print Assumptions C18_fmt_w_mode_preserved_asis_partial.
-
-(* ... and TRUE without guard for the fixed protocol (stat; fchmod the temp file before the rename) *)
-Theorem C18_fmt_w_mode_preserved_fixed : forall fmt1 parts join target tmp fs sched kill f,
-  files (r_fs (run fmt1 parts join Fixed CmdWrite target tmp fs sched kill)) target = Some f ->
-  exists f0, files fs target = Some f0 /\ f_mode f = f_mode f0.
-Proof. exact fmt_w_mode_preserved_fixed. Qed.
-Print Assumptions C18_fmt_w_mode_preserved_fixed.
+Proof. exact fmt_w_mode_preserved_before_fix_guarded. Qed.
+Print Assumptions C18_fmt_w_mode_preserved_before_fix_partial.
 
 (* a file that does not parse: the only system calls are the reads of the target
    (open/fstat/read/close), the file system is unchanged, the status is not 0 —
@@ -124,44 +136,57 @@ Definition ex_fmt (b : bytes) : option bytes :=
 
 (* killed during the write after a short write of 1 byte: target intact, temp holds a 1-byte prefix *)
 Example C18_ex_kill_mid_write :
-  let r := run ex_fmt evy_parts evy_join AsIs CmdWrite ex_target ex_tmp (ex_fs [120; 32; 121; 10]%N)
-               [OOk; OOk; OOk; OOk; OOk; OOk; OCount 1] 7 in
+  let r := run ex_fmt evy_parts evy_join Current CmdWrite ex_target ex_tmp (ex_fs [120; 32; 121; 10]%N)
+               [OOk; OOk; OOk; OOk; OOk; OOk; OOk; OCount 1] 8 in
   files (r_fs r) ex_target = Some {| f_data := [120; 32; 121; 10]%N; f_mode := 420 |} /\
   files (r_fs r) ex_tmp = Some {| f_data := [120]%N; f_mode := 384 |} /\ r_status r = Killed.
 Proof. vm_compute. repeat split; reflexivity. Qed.
 
-(* ENOSPC from the second write after a short first one: exit 1, target intact, temp file left behind *)
-Example C18_ex_enospc :
-  let r := run ex_fmt evy_parts evy_join AsIs CmdWrite ex_target ex_tmp (ex_fs [120; 32; 121; 10]%N)
+(* before the fix: ENOSPC from the second write after a short first one: exit 1, target intact, temp file left behind *)
+Example C18_ex_enospc_before_fix :
+  let r := run ex_fmt evy_parts evy_join BeforeFix CmdWrite ex_target ex_tmp (ex_fs [120; 32; 121; 10]%N)
                [OOk; OOk; OOk; OOk; OOk; OOk; OCount 2; OErr ENOSPC] 100 in
   files (r_fs r) ex_target = Some {| f_data := [120; 32; 121; 10]%N; f_mode := 420 |} /\
   files (r_fs r) ex_tmp = Some {| f_data := [120; 121]%N; f_mode := 384 |} /\ r_status r = Exit 1.
 Proof. vm_compute. repeat split; reflexivity. Qed.
 
-(* the same under the fixed protocol: temp file removed *)
-Example C18_ex_enospc_fixed :
-  let r := run ex_fmt evy_parts evy_join Fixed CmdWrite ex_target ex_tmp (ex_fs [120; 32; 121; 10]%N)
+(* the same under the protocol in force: temp file removed *)
+Example C18_ex_enospc :
+  let r := run ex_fmt evy_parts evy_join Current CmdWrite ex_target ex_tmp (ex_fs [120; 32; 121; 10]%N)
                [OOk; OOk; OOk; OOk; OOk; OOk; OOk; OCount 2; OErr ENOSPC] 100 in
   files (r_fs r) ex_target = Some {| f_data := [120; 32; 121; 10]%N; f_mode := 420 |} /\
   files (r_fs r) ex_tmp = None /\ r_status r = Exit 1.
 Proof. vm_compute. repeat split; reflexivity. Qed.
 
-(* fault-free: formatted text; mode 0600 as is, 0644 fixed *)
+(* fault-free: formatted text; mode 0600 before the fix, 0644 kept now *)
 Example C18_ex_success :
-  files (r_fs (run ex_fmt evy_parts evy_join AsIs CmdWrite ex_target ex_tmp (ex_fs [120; 32; 121; 10]%N) [] 100)) ex_target
+  files (r_fs (run ex_fmt evy_parts evy_join BeforeFix CmdWrite ex_target ex_tmp (ex_fs [120; 32; 121; 10]%N) [] 100)) ex_target
     = Some {| f_data := [120; 121; 10]%N; f_mode := 384 |} /\
-  files (r_fs (run ex_fmt evy_parts evy_join Fixed CmdWrite ex_target ex_tmp (ex_fs [120; 32; 121; 10]%N) [] 100)) ex_target
+  files (r_fs (run ex_fmt evy_parts evy_join Current CmdWrite ex_target ex_tmp (ex_fs [120; 32; 121; 10]%N) [] 100)) ex_target
     = Some {| f_data := [120; 121; 10]%N; f_mode := 420 |}.
 Proof. vm_compute. split; reflexivity. Qed.
 
 (* unparsable: five read calls, exit 1 *)
 Example C18_ex_unparsable :
-  let r := run ex_fmt evy_parts evy_join AsIs CmdWrite ex_target ex_tmp (ex_fs [63; 10]%N) [] 100 in
+  let r := run ex_fmt evy_parts evy_join Current CmdWrite ex_target ex_tmp (ex_fs [63; 10]%N) [] 100 in
   List.length (r_trace r) = 5%nat /\ r_status r = Exit 1 /\ fmt_all ex_fmt evy_parts evy_join [63; 10]%N = None.
 Proof. vm_compute. repeat split; reflexivity. Qed.
 
 (* check mode: 0 for formatted, 1 for unformatted *)
 Example C18_ex_check :
-  r_status (run ex_fmt evy_parts evy_join AsIs CmdCheck ex_target ex_tmp (ex_fs [120; 121; 10]%N) [] 100) = Exit 0 /\
-  r_status (run ex_fmt evy_parts evy_join AsIs CmdCheck ex_target ex_tmp (ex_fs [120; 32; 121; 10]%N) [] 100) = Exit 1.
+  r_status (run ex_fmt evy_parts evy_join Current CmdCheck ex_target ex_tmp (ex_fs [120; 121; 10]%N) [] 100) = Exit 0 /\
+  r_status (run ex_fmt evy_parts evy_join Current CmdCheck ex_target ex_tmp (ex_fs [120; 32; 121; 10]%N) [] 100) = Exit 1.
 Proof. vm_compute. split; reflexivity. Qed.
+
+(* regression: before the fix an ENOSPC left the temp file behind although the process exited normally *)
+Theorem C18_fmt_w_no_temp_left_before_fix_refuted :
+  exists sched kill,
+    let r := run ex_fmt evy_parts evy_join BeforeFix CmdWrite ex_target ex_tmp (ex_fs [120; 32; 121; 10]%N) sched kill in
+    r_status r = Exit 1 /\ files (ex_fs [120; 32; 121; 10]%N) ex_tmp = None /\ files (r_fs r) ex_tmp <> None /\
+    forall e, ~ In (CUnlink ex_tmp, RErr e) (r_trace r).
+Proof.
+  exists [OOk; OOk; OOk; OOk; OOk; OOk; OCount 2; OErr ENOSPC], 100%nat.
+  vm_compute. repeat split; try discriminate.
+  intros e H. repeat (destruct H as [H|H]; [discriminate|]). exact H.
+Qed.
+Print Assumptions C18_fmt_w_no_temp_left_before_fix_refuted.
